@@ -13,12 +13,15 @@ pub fn norm(x: i64) -> i64 {
 pub enum MV {
     I(i64),
     P(i64, i64),
+    /// ((a, b), c)
+    Q(i64, i64, i64),
 }
 impl MV {
     pub fn i(self) -> i64 {
         match self {
             MV::I(x) => x,
             MV::P(a, _) => a,
+            MV::Q(a, _, _) => a,
         }
     }
 }
@@ -121,6 +124,9 @@ pub fn class_eq(k: u8, a: MV, b: MV) -> bool {
         (MV::P(x1, x2), MV::P(y1, y2)) => {
             x1.div_euclid(k) == y1.div_euclid(k) && x2.div_euclid(k) == y2.div_euclid(k)
         }
+        (MV::Q(x1, x2, x3), MV::Q(y1, y2, y3)) => {
+            x1.div_euclid(k) == y1.div_euclid(k) && x2.div_euclid(k) == y2.div_euclid(k) && x3.div_euclid(k) == y3.div_euclid(k)
+        }
         _ => false,
     }
 }
@@ -142,6 +148,7 @@ impl WriteOp {
                 WriteOp::Set(v) | WriteOp::SetB(v) | WriteOp::Replace(v) => norm(v),
                 WriteOp::Update(f) | WriteOp::Modify(f) | WriteOp::ReplaceWith(f) => f.ap(x),
             }),
+            MV::Q(..) => cur,
             MV::P(a, b) => match self {
                 WriteOp::Set(v) | WriteOp::Replace(v) => MV::P(norm(v), b),
                 WriteOp::SetB(v) => MV::P(a, norm(v)),
@@ -246,6 +253,8 @@ pub enum Pool {
     I,
     /// pair nodes
     P,
+    /// ((i64, i64), i64) nodes
+    Q,
     Any,
 }
 
@@ -264,6 +273,10 @@ pub enum Action {
     NewFold { srcs: Vec<usize>, init: i64, f: F2 },
     NewZip { a: usize, b: usize },
     NewMapRef { src: usize, proj: u8 },
+    /// pair node zipped with a scalar node: ((a, b), c)
+    NewZipQ { a: usize, b: usize },
+    /// map_ref projecting the pair out of a ((a, b), c) node (so map_ref nodes can be chained)
+    NewMapRefQ { src: usize },
     NewMapWithOld { src: usize, f: F1 },
     NewDependOn { a: usize, b: usize, pool_b: Pool },
     NewBind { lhs: usize, body: BodySpec },
